@@ -189,8 +189,9 @@ impl<H: Hal, T: Transport> VirtIOGpu<H, T> {
         )?;
 
         self.resource_attach_backing(RESOURCE_ID_FB, frame_buffer_dma.paddr() as u64, size)?;
-        self.set_scanout(rect, SCANOUT_ID, RESOURCE_ID_FB)?;
-
+        // The device now refers to the buffer, so keep it for as long as it is attached to the
+        // resource, even if a later command fails.
+        let frame_buffer_dma = self.frame_buffer_dma.insert(frame_buffer_dma);
         // SAFETY: `Dma::new` guarantees that the pointer returned from
         // `raw_slice` is non-null, aligned, and the allocation is zeroed. We
         // store the `Dma` object in `self.frame_buffer_dma`, which prevents the
@@ -199,7 +200,7 @@ impl<H: Hal, T: Transport> VirtIOGpu<H, T> {
         // another reference to `frame_buffer_dma` while the returned slice is
         // still in use.
         let buf = unsafe { frame_buffer_dma.raw_slice().as_mut() };
-        self.frame_buffer_dma = Some(frame_buffer_dma);
+        self.set_scanout(rect, SCANOUT_ID, RESOURCE_ID_FB)?;
         Ok(buf)
     }
 
@@ -241,6 +242,9 @@ impl<H: Hal, T: Transport> VirtIOGpu<H, T> {
 
         self.resource_create_2d(RESOURCE_ID_CURSOR, CURSOR_RECT.width, CURSOR_RECT.height)?;
         self.resource_attach_backing(RESOURCE_ID_CURSOR, cursor_buffer_dma.paddr() as u64, size)?;
+        // The device now refers to the buffer, so keep it for as long as it is attached to the
+        // resource, even if a later command fails.
+        self.cursor_buffer_dma = Some(cursor_buffer_dma);
         self.transfer_to_host_2d(CURSOR_RECT, 0, RESOURCE_ID_CURSOR)?;
         self.update_cursor(
             RESOURCE_ID_CURSOR,
@@ -251,7 +255,6 @@ impl<H: Hal, T: Transport> VirtIOGpu<H, T> {
             hot_y,
             false,
         )?;
-        self.cursor_buffer_dma = Some(cursor_buffer_dma);
         Ok(())
     }
 
